@@ -2,7 +2,7 @@
 
 Monitor: equality monitor (library output vs. the bytes the independent Python packer was given)
 + residual-heap monitor + proportionality monitor; ASan/LSan replay of the same workload."""
-import os, struct
+import os, shutil, struct
 from ..core import digest
 from ..fmt import sqpack as sq
 
@@ -11,7 +11,8 @@ RULE = ("dat files built by an independent packer: standard / texture / model en
         "content lengths 0..1 MiB (quick <= 256 KiB) incl. edges 0,1,127..129,15999..16001,31999..32001, content kinds random/runs/text/zero, block sizes 1..16000, "
         "each block independently raw (32000 marker) or raw-deflate by Python zlib (stored, Z_FIXED, Z_HUFFMAN_ONLY, Z_RLE, dynamic); textures with 1..5 mips and "
         "per-mip block chains, models with stack/runtime/vertex/index sections for 1..3 LODs and arbitrary per-section block counts; read through "
-        "SqPackData::read_from_offset and (one in four) through GameData::extract on a generated index. non-trivial = >= 1 deflated block or >= 2 blocks or "
+        "SqPackData::read_from_offset and (one in four) through GameData::extract on a generated index; plus entries of all three kinds stored at offsets from 4 GiB - 128 up to 2^35 in "
+        "a sparse dat file, read both ways. non-trivial = >= 1 deflated block or >= 2 blocks or "
         "texture/model kind; distinct = digest of (kind, content, split, strategies)")
 ASSUMPTIONS = ["Python zlib produces valid raw-deflate streams of every block type", "entry layouts as documented for SqPack (validated by probes: the library accepts them)"]
 
@@ -84,6 +85,97 @@ def shard(ctx):
     rng, P = ctx.rng, ctx.params
     for it in range(P["n"]):
         group(ctx, rng, P)
+    for it in range(P.get("far", 1)):
+        far_offset_group(ctx, rng, P)
+
+
+def far_offset_group(ctx, rng, P):
+    """entries stored beyond 4 GiB in a (sparse) dat file: an index entry addresses 128-aligned offsets up to 2^35, and every
+    offset inside an entry is relative to the entry, so the arithmetic must be carried out in 64 bits"""
+    plat = rng.choice(list(sq.PLATFORMS))
+    base = rng.choice([(1 << 32) - 128, 1 << 32, (1 << 32) + 128 * rng.randrange(1, 1 << 20), 1 << 33, (1 << 34) + 128 * rng.randrange(1 << 20), (1 << 35) - (1 << 22)])
+    blob = bytearray()
+    planted = []
+    sf = strat_fn(rng)
+    for kind in rng.sample(["standard", "texture", "model"], 3):
+        if kind == "standard":
+            data, ck = content(rng, rng.choice([1, 200, 40000]))
+            chunks = bounded_split(rng, data, pick_sizes(rng))
+            entry, used = sq.standard_entry(chunks, [sf() for _ in chunks])
+            exp = dict(kind=kind, data=data)
+            meta = dict(kind=kind, content=ck, length=len(data), blocks=len(chunks))
+        elif kind == "texture":
+            header = rng.randbytes(80)
+            mips = [bounded_split(rng, content(rng, rng.choice([64, 5000, 33000]))[0], pick_sizes(rng), 60) for _ in range(rng.randint(1, 4))]
+            entry, expected, used = sq.texture_entry(header, mips, sf)
+            exp = dict(kind=kind, data=expected)
+            meta = dict(kind=kind, content="tex", length=len(expected), blocks=sum(len(m) for m in mips), mips=len(mips))
+        else:
+            nl = rng.randint(1, 3)
+            stack, runtime = rng.randbytes(136), rng.randbytes(rng.choice([1, 500]))
+            lods = [(rng.randbytes(rng.choice([16, 3000])), rng.randbytes(rng.choice([16, 96]))) if i < nl else (b"", b"") for i in range(3)]
+            sizes = pick_sizes(rng)
+            hdrvals = dict(version=0x1000005, vdecl=rng.randrange(1, 40), materials=rng.randrange(0, 9), lod_count=nl, streaming=False, edge=False)
+            entry, sections, used = sq.model_entry(hdrvals["version"], stack, runtime, lods, hdrvals["vdecl"], hdrvals["materials"], nl, False, False,
+                                                   lambda d: bounded_split(rng, d, sizes, 60), sf)
+            exp = dict(kind=kind, sections=sections, hdr=hdrvals)
+            meta = dict(kind=kind, content="mdl", length=sum(len(x) for x in sections.values()), blocks=len(used), lods=nl)
+        while len(blob) % 128:
+            blob.append(0xCD)
+        blob += b"\xCD" * (128 * rng.choice([0, 1, 3]))
+        off = base + len(blob)
+        blob += entry
+        meta["used"] = sorted(set(used))
+        planted.append((off, exp, meta, digest(kind, entry, off)))
+    while len(blob) % 128:
+        blob.append(0xCD)
+    if base + len(blob) > (1 << 35):
+        return
+    root = ctx.path("far")
+    rd = os.path.join(root, "sqpack", "ffxiv")
+    os.makedirs(rd, exist_ok=True)
+    cat = rng.choice(list(sq.CATEGORIES)); cid = sq.CATEGORIES[cat]
+    datid = rng.randrange(8)
+    datp = os.path.join(rd, sq.dat_filename(cid, 0, 0, plat, datid))
+    try:
+        with open(datp, "wb") as f:
+            f.write(sq.DatBuilder(sq.PLATFORMS[plat]).bytes(tail_junk=0))
+            f.seek(base)          # a hole: the file stays sparse on disk
+            f.write(blob)
+        if os.stat(datp).st_blocks * 512 > (64 << 20):
+            raise OSError("file system does not keep the hole sparse")
+    except OSError as e:
+        ctx.inconclusive("far-offset dat file could not be created: %s" % e)
+        shutil.rmtree(root, ignore_errors=True)
+        return
+    paths = ["%s/far/file_%d.bin" % (cat, k) for k in range(len(planted))]
+    ikind = rng.choice([1, 2])
+    ents = [((sq.hash1(p) if ikind == 1 else sq.hash2(p)), datid, o, False) for p, (o, _, _, _) in zip(paths, planted)]
+    with open(os.path.join(rd, sq.index_filename(cid, 0, 0, plat, ikind)), "wb") as f:
+        f.write(sq.index_file(ikind, ents, sq.PLATFORMS[plat], ndats=datid + 1))
+    gd = None
+    r = ctx.call("gd.open", plat, root)
+    if r.ok:
+        gd = r.value["handle"]
+    out = ctx.path("extract.out")
+    for path, (off, exp, meta, key) in zip(paths, planted):
+        for via in ("read_from_offset", "extract"):
+            if via == "extract" and gd is None:
+                continue
+            ctx.case(digest(key, via), True, ["kind:" + meta["kind"], "offset:>=4GiB" if off >= (1 << 32) else "offset:straddles-4GiB", "via:" + via, "dat:%d" % datid],
+                     sample=dict(meta, offset=off, dat=datid, via=via))
+            if os.path.exists(out):
+                os.unlink(out)
+            rec = ctx.call("gd.extract", gd, path, out, input_bytes=len(blob)) if via == "extract" else ctx.call("dat.read", datp, off, out, input_bytes=len(blob))
+            ctx.check_mon(rec, len(blob), residual=(via != "extract"), files=[])
+            if rec.outcome == "none":
+                ctx.violation("extract", dict(sub="returned_none", kind_of=meta["kind"], where="offset>=4GiB"), dict(meta=meta, offset=off, via=via, note="sparse dat file, rebuild with the replay seed"))
+                continue
+            if rec.ok:
+                judge(ctx, ctx.read("extract.out"), exp, dict(meta, via=via), off, None)
+    if gd is not None:
+        ctx.call("drop", gd)
+    shutil.rmtree(root, ignore_errors=True)
 
 
 def group(ctx, rng, P):
@@ -215,11 +307,11 @@ def judge(ctx, got, exp, meta, off, datfile):
     if exp["kind"] in ("standard", "texture"):
         if got != exp["data"]:
             fd = next((i for i in range(min(len(got), len(exp["data"]))) if got[i] != exp["data"][i]), min(len(got), len(exp["data"])))
-            ctx.violation("extract", dict(sub="content_mismatch", kind_of=exp["kind"]), dict(meta=meta, got_len=len(got), expected_len=len(exp["data"]), first_diff=fd, offset=off), files=[datfile])
+            ctx.violation("extract", dict(sub="content_mismatch", kind_of=exp["kind"]), dict(meta=meta, got_len=len(got), expected_len=len(exp["data"]), first_diff=fd, offset=off), files=[datfile] if datfile else [])
         return
     sec = exp["sections"]
     if len(got) < 0x44:
-        ctx.violation("extract", dict(sub="model_too_short"), dict(meta=meta, got_len=len(got)), files=[datfile])
+        ctx.violation("extract", dict(sub="model_too_short"), dict(meta=meta, got_len=len(got)), files=[datfile] if datfile else [])
         return
     h = sq.parse_model_header(got)
     bad = {}
@@ -250,7 +342,7 @@ def judge(ctx, got, exp, meta, off, datfile):
         if a + n > b:
             bad["overlap"] = ((a, n), (b, m))
     if bad:
-        ctx.violation("extract", dict(sub="model_mismatch", fields=",".join(sorted(bad))[:80]), dict(meta=meta, bad=repr(bad)[:800], offset=off), files=[datfile])
+        ctx.violation("extract", dict(sub="model_mismatch", fields=",".join(sorted(bad))[:80]), dict(meta=meta, bad=repr(bad)[:800], offset=off), files=[datfile] if datfile else [])
 
 
 def bucket(n):
